@@ -23,6 +23,16 @@ var poolDefs = map[string][]string{
 	"p3": {"fd03::/124"},
 }
 
+// poolDef: the native BGP mode refuses any configuration in which a BGP advertisement selects a
+// pool with IPv6 addresses; most native runs therefore use IPv4-only pools (the refusal path stays
+// covered by the rest).
+func (w *sworld) poolDef(name string) []string {
+	if w.k.bgpType == "native" && !w.k.nativeV6 {
+		return map[string][]string{"p1": {"10.1.0.0/28", "10.1.1.0/28"}, "p2": {"10.2.0.0/28"}, "p3": {"10.3.0.0/28"}}[name]
+	}
+	return poolDefs[name]
+}
+
 func (w *sworld) pick(n int, l string) int { return w.ch.Intn(n, l) }
 
 func zoneSel(z string) []metav1.LabelSelector {
@@ -49,24 +59,29 @@ func (w *sworld) setupCluster() {
 		w.createPool(name)
 	}
 	nl := w.pick(3, "initial l2advs")
+	nb := w.pick(3, "initial bgpadvs")
+	npeer := w.pick(3, "initial peers")
+	nsvc := w.pick(4, "initial services")
+	if w.k.bgpFocus {
+		nl, nb, npeer, nsvc = nl/2, 1+nb/2+nb%2, 1+npeer/2+npeer%2, 1+nsvc
+	}
 	for i := 0; i < nl; i++ {
 		w.opL2Adv()
 	}
-	nb := w.pick(3, "initial bgpadvs")
 	for i := 0; i < nb; i++ {
 		w.opBGPAdv()
 	}
-	for i := w.pick(3, "initial peers"); i > 0; i-- {
+	for i := npeer; i > 0; i-- {
 		w.opPeer()
 	}
-	for i := w.pick(4, "initial services"); i > 0; i-- {
+	for i := nsvc; i > 0; i-- {
 		w.opCreateService()
 	}
 }
 
 func (w *sworld) createPool(name string) {
 	p := &metallbv1beta1.IPAddressPool{ObjectMeta: metav1.ObjectMeta{Namespace: metallbNS, Name: name, Labels: map[string]string{"tier": []string{"x", "y"}[w.pick(2, "pool tier")]}}}
-	p.Spec.Addresses = poolDefs[name]
+	p.Spec.Addresses = w.poolDef(name)
 	if w.pick(2, "pool pinned") == 1 {
 		// several pools pinned to the same namespaces (C18)
 		p.Spec.AllocateTo = &metallbv1beta1.ServiceAllocation{Priority: w.pick(3, "pool priority"), Namespaces: []string{"default", "other"}[:1+w.pick(2, "pool namespaces")]}
@@ -141,7 +156,11 @@ func (w *sworld) opBGPAdv() bool {
 	idx := w.pick(3, "bgpadv name")
 	name := []string{"b1", "b2", "b3"}[idx]
 	key := metallbNS + "/" + name
-	if old := w.srv.Get("BGPAdvertisement", key); old != nil && w.pick(3, "delete bgpadv") == 0 {
+	delAdv := 3
+	if w.k.bgpFocus {
+		delAdv = 6
+	}
+	if old := w.srv.Get("BGPAdvertisement", key); old != nil && w.pick(delAdv, "delete bgpadv") == 0 {
 		_ = w.srv.Delete("BGPAdvertisement", key)
 		w.logf("ENV delete bgpadvertisement %s", name)
 		return true
@@ -155,7 +174,11 @@ func (w *sworld) opBGPAdv() bool {
 	ai := w.pick(3, "aggregation")
 	agg4 := []int32{32, 30, 28}[ai]
 	agg6 := []int32{128, 126, 124}[ai]
-	if w.pick(10, "too short aggregation") == 0 {
+	tooShort := 10
+	if w.k.bgpFocus {
+		tooShort = 40
+	}
+	if w.pick(tooShort, "too short aggregation") == 0 {
 		agg4 = 24 // shorter than the /28 pools: the configuration must be rejected (whatever the order)
 	}
 	if w.pick(2, "agg default") == 0 && ai == 0 {
@@ -202,7 +225,11 @@ func (w *sworld) opPeer() bool {
 	i := w.pick(3, "peer name")
 	name := []string{"peer1", "peer2", "peer3"}[i]
 	key := metallbNS + "/" + name
-	if old := w.srv.Get("BGPPeer", key); old != nil && w.pick(3, "delete peer") == 0 {
+	delPeer := 3
+	if w.k.bgpFocus {
+		delPeer = 8
+	}
+	if old := w.srv.Get("BGPPeer", key); old != nil && w.pick(delPeer, "delete peer") == 0 {
 		_ = w.srv.Delete("BGPPeer", key)
 		w.logf("ENV delete bgppeer %s", name)
 		return true
@@ -250,7 +277,7 @@ func (w *sworld) pickAddrs() []string {
 			}
 		}
 	}
-	for _, s := range poolDefs[pn] {
+	for _, s := range w.poolDef(pn) {
 		r, _ := specalloc.ParseRange(s)
 		n := 0
 		for a := r.Lo; n < 6; a = a.Next() {
@@ -663,6 +690,9 @@ func (w *sworld) envOp() {
 	for tries := 0; tries < 4; tries++ {
 		ok := false
 		r := w.pick(24, "env op")
+		if w.k.bgpFocus && r >= 13 && r < 16 && w.pick(3, "bgp instead of l2") != 0 {
+			r = 16 // BGP-heavy run: most layer-2 advertisement operations become BGP ones
+		}
 		switch {
 		case r < 3:
 			ok = w.opCreateService()
